@@ -44,6 +44,10 @@ def sig_programs(chk, n):
             chk.mismatch('signal context managers vs Mpire.Signal', {'line': line}, i, m)
             if 'depth=0' in i and ('handler=' + line.split(' ')[1][2:]) not in i:
                 chk.violation('handler_restored', {'line': line}, i, 'handler after == handler before', input_class='ctx_managers')
+            if 'ESCAPED:' in i:
+                chk.violation('interrupt_has_one_of_two_outcomes', {'line': line}, i,
+                              'a SIGINT ends in KeyboardInterrupt or is dropped/deferred: no other exception comes out of the context managers',
+                              input_class='ctx_managers_foreign_exception')
 
 
 def base_scenarios(rng, n):
@@ -80,7 +84,10 @@ def judge(chk, sc, o):
         chk.violation('interrupt_within_bounded_time', case, {'sigint_at': o['injected']['t'], 'call_ended_at': last['t1']},
                       'KeyboardInterrupt within %.1f virtual s of the signal (one task takes 0.1 s, one chunk 2 s)' % sc['latency_bound'],
                       input_class='sigint_latency')
-    if last.get('outcome') == 'raise':
+    if sc.get('sigint_disposition') == 'ign' and last.get('outcome') == 'raise':
+        chk.violation('ignored_interrupt_completes', case, {'raised': last.get('exc'), 'injected': o['injected']},
+                      'a SIGINT the caller ignores has no effect: the call completes', input_class='sigint_ignored_yet_raised@' + o['injected'].get('site', '?'))
+    elif last.get('outcome') == 'raise':
         if (last.get('exc') or {}).get('type') != 'KeyboardInterrupt':
             chk.violation('keyboard_interrupt_or_completion', case, {'raised': last.get('exc'), 'injected': o['injected']},
                           'KeyboardInterrupt (or correct completion), nothing else', input_class='sigint_third_outcome@' + o['injected'].get('site', '?'))
@@ -126,7 +133,35 @@ def run(chk):
         for s2 in inject.sigint_sweep(sc, bo, stride=1, lo=lo, hi=bo['ops'][-1].get('main_points_end')):
             s2['inject'][0]['group'] = True
             swept.append(s2)
+    # the caller ignores SIGINT (a background job, nohup): the signal has no effect — the call completes with correct results,
+    # at whichever moment it arrives (also inside the pool's deferred sections)
+    ibases = base_scenarios(rng, 1 if chk.tier == 'quick' else 10)[:1 if chk.tier == 'quick' else 10]
+    for sc in ibases:
+        sc['sigint_disposition'] = 'ign'
+        sc.pop('latency_bound', None)
+    for sc, bo in zip(ibases, inject.baseline(ibases)):
+        if not bo.get('stuck') and not bo.get('harness_error'):
+            swept += inject.sigint_sweep(sc, bo, stride=1, hi=bo['ops'][-1].get('main_points_end'))
+    # calls during which no signal arrives at all, for every kind of thing the caller can have installed for SIGINT: it is still
+    # there afterwards
+    plain = []
+    for disp in ('ign', 'dfl', 'custom', 'dfl', 'ign', 'custom'):
+        sc = base_scenarios(rng, 1)[0]
+        sc['sigint_disposition'] = disp
+        sc.pop('latency_bound', None)
+        plain.append(sc)
     from harness import par
+    for sc, o in zip(plain, par.run_all(plain)):
+        if o.get('harness_error'):
+            continue
+        chk.count('no signal at all: the SIGINT disposition found is the one left behind', key=key_of(sc) + sc['sigint_disposition'], nontrivial=True,
+                  sample={'scenario': sc, 'before': o.get('sigint_handler_before'), 'after': o.get('sigint_handler_after')}, disposition=sc['sigint_disposition'])
+        if o.get('stuck') or (o.get('ops') or [{}])[-1].get('outcome') != 'ok':
+            chk.violation('completion_is_correct', {'scenario': sc}, {'stuck': o.get('stuck'), 'outcome': (o.get('ops') or [{}])[-1].get('outcome'), 'exc': (o.get('ops') or [{}])[-1].get('exc')},
+                          'a call during which no signal arrives completes', input_class='disposition_breaks_call')
+        elif o.get('sigint_handler_after') != o.get('sigint_handler_before'):
+            chk.violation('handler_restored', {'scenario': sc}, {'before': o.get('sigint_handler_before'), 'after': o.get('sigint_handler_after')}, 'SIGINT handler unchanged',
+                          input_class='sigint_handler_' + sc['sigint_disposition'])
     obs = par.run_all(swept)
     outcomes = {}
     for sc, o in zip(swept, obs):
